@@ -63,13 +63,38 @@ fn general() -> Vec<String> {
     v
 }
 
+/// Encoders the `mixed:*` maps draw from. AAC (rejects byte 255, asserts on short stripes) and
+/// rANS 4x8 order 1 (rejects blocks shorter than 4 bytes) practically never get a small file
+/// written when they sit on every series, so they are exercised by the uniform maps of the large
+/// files and by the targeted `qs=` / `rn=` maps instead.
+fn mixable() -> Vec<String> {
+    general().into_iter().filter(|e| !e.starts_with("aac") && e != "rans4x8:1").collect()
+}
+
 pub fn names() -> Vec<String> {
     let mut v = vec!["default".to_string()];
-    v.extend(general());
+    for e in general() {
+        // uniform maps: all general encoders but only three of the AAC flag sets (see `mixable`)
+        if !e.starts_with("aac") || ["aac:0x00", "aac:0x04", "aac:0x20"].contains(&e.as_str()) {
+            v.push(e);
+        }
+    }
+    // AAC asserts on empty input and the core data block of noodles' writer is always empty:
+    // the uniform aac:* maps leave the core block uncompressed; this one does not (writer panic)
+    v.push("aac-core:0x00".into());
+    // one series on the codec under observation, everything else on the default gzip
+    for e in general() {
+        if e.starts_with("rans") || e.starts_with("nx16") || e.starts_with("aac") {
+            v.push(format!("qs={e}"));
+        }
+    }
+    for e in ["rans4x8:1", "nx16:0x01", "nx16:0xc1", "aac:0x01", "aac:0x41", "bzip2:9"] {
+        v.push(format!("rn={e}"));
+    }
     v.push("tok".into());
     v.push("tok+none".into());
     v.push("fqz".into());
-    v.push("fqz+rans4x8:1".into());
+    v.push("fqz+lzma:6".into());
     for k in 0..6 {
         v.push(format!("mixed:{k}"));
     }
@@ -107,10 +132,12 @@ pub fn build(name: &str) -> BlockContentEncoderMap {
         "tok" => BlockContentEncoderMap::builder().set_data_series_encoder(DataSeries::Names, Some(Encoder::NameTokenizer)).build(),
         "tok+none" => uniform(None).set_data_series_encoder(DataSeries::Names, Some(Encoder::NameTokenizer)).build(),
         "fqz" => BlockContentEncoderMap::builder().set_data_series_encoder(DataSeries::QualityScores, Some(Encoder::Fqzcomp)).build(),
-        "fqz+rans4x8:1" => uniform(encoder("rans4x8:1")).set_data_series_encoder(DataSeries::QualityScores, Some(Encoder::Fqzcomp)).build(),
+        "fqz+lzma:6" => uniform(encoder("lzma:6")).set_data_series_encoder(DataSeries::QualityScores, Some(Encoder::Fqzcomp)).build(),
+        n if n.starts_with("qs=") => BlockContentEncoderMap::builder().set_data_series_encoder(DataSeries::QualityScores, encoder(&n[3..])).build(),
+        n if n.starts_with("rn=") => BlockContentEncoderMap::builder().set_data_series_encoder(DataSeries::Names, encoder(&n[3..])).build(),
         n if n.starts_with("mixed:") => {
             // a fixed pseudo-random assignment per variant number: every series its own encoder
-            let g = general();
+            let g = mixable();
             let pick = |k: usize| -> Option<Encoder> {
                 let h = fnv1a(format!("{n}/{k}").as_bytes());
                 encoder(&g[(h % g.len() as u64) as usize])
@@ -127,6 +154,84 @@ pub fn build(name: &str) -> BlockContentEncoderMap {
             }
             b.build()
         }
+        n if n.starts_with("aac-core:") => uniform(encoder(&n.replace("aac-core", "aac"))).build(),
+        n if n.starts_with("aac:") => uniform(encoder(n)).set_core_data_encoder(None).build(),
         n => uniform(encoder(n)).build(),
+    }
+}
+
+/// Name of the encoder that map `name` assigns to a block (mirror of `build`, for diagnosis).
+pub fn encoder_for(name: &str, content_type: u8, content_id: i32) -> String {
+    let core = content_type == 5;
+    let series = content_type == 4 && (1..=28).contains(&content_id);
+    let names = series && content_id == 7;
+    let quals = series && content_id == 28;
+    match name {
+        "default" => "gzip:6".into(),
+        "tok" => if names { "tok".into() } else { "gzip:6".into() },
+        "tok+none" => if names { "tok".into() } else { "none".into() },
+        "fqz" => if quals { "fqz".into() } else { "gzip:6".into() },
+        "fqz+lzma:6" => if quals { "fqz".into() } else { "lzma:6".into() },
+        n if n.starts_with("qs=") => if quals { n[3..].into() } else { "gzip:6".into() },
+        n if n.starts_with("rn=") => if names { n[3..].into() } else { "gzip:6".into() },
+        n if n.starts_with("mixed:") => {
+            if names && (n.ends_with('1') || n.ends_with('3')) {
+                return "tok".into();
+            }
+            if quals && (n.ends_with('2') || n.ends_with('3')) {
+                return "fqz".into();
+            }
+            let g = mixable();
+            let k = if core { 100 } else if series { (content_id - 1) as usize } else { 101 };
+            let h = fnv1a(format!("{n}/{k}").as_bytes());
+            g[(h % g.len() as u64) as usize].clone()
+        }
+        n if n.starts_with("aac-core:") => n.replace("aac-core", "aac"),
+        n if n.starts_with("aac:") => if core { "none".into() } else { n.into() },
+        n => n.into(),
+    }
+}
+
+/// Runs `encode` then `decode` of the named encoder on `data` through the H2 wrappers and says why
+/// the pair is not the identity (None = it is). `lens` = record lengths for fqzcomp.
+pub fn probe(enc: &str, data: &[u8], lens: &[usize]) -> Option<String> {
+    use noodles_cram::verif::codecs as vc;
+    let (kind, arg) = enc.split_once(':').unwrap_or((enc, ""));
+    let num = |s: &str| -> u32 {
+        if let Some(h) = s.strip_prefix("0x") { u32::from_str_radix(h, 16).unwrap() } else { s.parse().unwrap_or(0) }
+    };
+    let fixed = |enc: std::io::Result<Vec<u8>>, dec: &dyn Fn(&[u8], &mut [u8]) -> std::io::Result<()>| -> std::io::Result<Vec<u8>> {
+        let e = enc?;
+        let mut dst = vec![0u8; data.len()];
+        dec(&e, &mut dst)?;
+        Ok(dst)
+    };
+    let r = vcore::guard::catch(|| -> std::io::Result<Vec<u8>> {
+        match kind {
+            "none" => Ok(data.to_vec()),
+            "gzip" => fixed(vc::gzip::encode(num(arg), data), &|s, d| vc::gzip::decode(s, d)),
+            "bzip2" => fixed(vc::bzip2::encode(num(arg), data), &|s, d| vc::bzip2::decode(s, d)),
+            "lzma" => fixed(vc::lzma::encode(num(arg), data), &|s, d| vc::lzma::decode(s, d)),
+            "rans4x8" => {
+                let o = if num(arg) == 0 { vc::rans_4x8::Order::Zero } else { vc::rans_4x8::Order::One };
+                vc::rans_4x8::decode(&vc::rans_4x8::encode(o, data)?)
+            }
+            "nx16" => vc::rans_nx16::decode(&vc::rans_nx16::encode(vc::rans_nx16::Flags::from_bits_truncate(num(arg) as u8), data)?, data.len()),
+            "aac" => vc::aac::decode(&vc::aac::encode(vc::aac::Flags::from_bits_truncate(num(arg) as u8), data)?, data.len()),
+            "tok" => vc::name_tokenizer::decode(&vc::name_tokenizer::encode(data)?),
+            "fqz" => {
+                if lens.iter().sum::<usize>() != data.len() {
+                    return Ok(data.to_vec());
+                }
+                vc::fqzcomp::decode(&vc::fqzcomp::encode(lens, data)?)
+            }
+            _ => Ok(data.to_vec()),
+        }
+    });
+    match r {
+        Err(p) => Some(format!("panics: {}", p.message)),
+        Ok(Err(e)) => Some(format!("fails: {e}")),
+        Ok(Ok(d)) if d != data => Some(format!("yields {} bytes that differ from the {} encoded bytes", d.len(), data.len())),
+        _ => None,
     }
 }
